@@ -8,6 +8,7 @@ CONSTANTS
   MaxOps = 4
   MaxActs = 1
   MaxForks = 1
+  EmitEvery = 100
 INIT Init
 NEXT Next
 VIEW view
